@@ -53,6 +53,14 @@ BIN = {nodes.Add: "+", nodes.Sub: "-", nodes.Mul: "*", nodes.Div: "/", nodes.Flo
        nodes.Mod: "%", nodes.Pow: "**"}
 
 
+def _dict_keys(e):
+    """iterating a dict iterates its keys: `x.element_count | first` is `x.element_count.keys() | first` (canonical form); also
+    applied after a substitution (a loop variable standing for `x.element_count`) has produced the left-hand spelling"""
+    if e[0] == "filter" and e[1] in ("first", "last", "list", "length", "join", "sort") and e[2][0] == "attr" and e[2][2] == "element_count":
+        return e[:2] + (("call", ("attr", e[2], "keys"), (), ()),) + e[3:]
+    return e
+
+
 def jx(n):
     if n is None:
         return None
@@ -70,11 +78,8 @@ def jx(n):
     if t is nodes.Filter:
         inner = jx(n.node)
         name = _FILTER_ALIAS.get(n.name, n.name)
-        # iterating a dict iterates its keys: `x.element_count | first` is `x.element_count.keys() | first` (canonical form)
-        if name in ("first", "last", "list", "length", "join", "sort") and inner[0] == "attr" and inner[2] == "element_count":
-            inner = ("call", ("attr", inner, "keys"), (), ())
-        return ("filter", name, inner, tuple(jx(a) for a in n.args),
-                tuple((k.key, jx(k.value)) for k in n.kwargs))
+        return _dict_keys(("filter", name, inner, tuple(jx(a) for a in n.args),
+                           tuple((k.key, jx(k.value)) for k in n.kwargs)))
     if t is nodes.Test:
         return ("test", n.name, jx(n.node), tuple(jx(a) for a in n.args))
     if t is nodes.Call:
@@ -585,6 +590,29 @@ def _macros_of(tree, rel):
     return cache[rel]
 
 
+import itertools as _it
+_expansion = _it.count(1)         # serial number of a macro expansion (pairs its begin / end markers)
+_IMPORTS = "\x00imports"          # key of `config` holding {alias: (template path, macro name | None for a whole-template alias)}
+
+
+def _macro_of(tree, rel, config, callee):
+    """(Macro node, template it is defined in) for the callee of `{{ callee(..) }}`: a macro of this template, `ns.name` with `ns` an
+    imported template, or a name imported with `from .. import ..`; None for anything else"""
+    imp = config.get(_IMPORTS, {})
+    if isinstance(callee, nodes.Name):
+        m = _macros_of(tree, rel).get(callee.name)
+        if m is not None:
+            return m, rel
+        if callee.name in imp and imp[callee.name][1] is not None and tree.exists(imp[callee.name][0]):
+            m = _macros_of(tree, imp[callee.name][0]).get(imp[callee.name][1])
+            return (m, imp[callee.name][0]) if m is not None else None
+    elif isinstance(callee, nodes.Getattr) and isinstance(callee.node, nodes.Name) and callee.node.name in imp and imp[callee.node.name][1] is None \
+            and tree.exists(imp[callee.node.name][0]):
+        m = _macros_of(tree, imp[callee.node.name][0]).get(callee.attr)
+        return (m, imp[callee.node.name][0]) if m is not None else None
+    return None
+
+
 _PARAMS = "\x00macro-params"      # key of `config` holding {macro parameter: constant argument} inside a macro expansion
 
 
@@ -628,24 +656,37 @@ def _items(tree, body, rel, config, depth) -> list:
                 elif isinstance(c, nodes.Name) and isinstance(config.get(_PARAMS, {}).get(c.name), str):
                     # `{{ param }}` of a macro called with a string literal renders that literal
                     out.append(("text", config[_PARAMS][c.name], c.lineno, rel))
-                elif isinstance(c, nodes.Call) and isinstance(c.node, nodes.Name) and c.node.name in macros and depth < 8 and not c.dyn_args and not c.dyn_kwargs:
+                elif isinstance(c, nodes.Mul) and isinstance(c.left, nodes.Const) and isinstance(c.left.value, str) and not c.left.value.strip() \
+                        and isinstance(c.right, (nodes.Const, nodes.Name)) and isinstance(c.right.value if isinstance(c.right, nodes.Const) else config.get(_PARAMS, {}).get(c.right.name), int):
+                    # `{{ " " * indent }}` with a literal width: layout text
+                    k_ = c.right.value if isinstance(c.right, nodes.Const) else config[_PARAMS][c.right.name]
+                    out.append(("text", c.left.value * max(k_, 0), c.lineno, rel))
+                elif isinstance(c, nodes.Call) and depth < 8 and not c.dyn_args and not c.dyn_kwargs and _macro_of(tree, rel, config, c.node) is not None:
                     # `{{ helper(args) }}`: the macro's body with its parameters bound -- extracted template code is still this code
-                    m = macros[c.node.name]
+                    # (`{{ ns.helper(args) }}` / an imported name: a macro of the template imported as `ns`, read in that template)
+                    m, mrel = _macro_of(tree, rel, config, c.node)
                     params = [a.name for a in m.args]
                     given = dict(zip(params, c.args))
                     given.update({k.key: k.value for k in c.kwargs})
                     defaults = dict(zip(params[len(params) - len(m.defaults):], m.defaults))
                     inner = dict(config)
                     inner[_PARAMS] = {}
+                    # the parameter bindings and the body are one scope: bracketed by markers, so that a reader resolving a name
+                    # backwards from a later item does not take a parameter of a finished expansion for a template variable
+                    mid = next(_expansion)
+                    out.append(("other", f"macro-begin:{mid}", c.lineno, rel))
                     for p_ in params:
                         v_ = given.get(p_, defaults.get(p_))
                         inner.pop(p_, None)
                         if v_ is not None:
                             out.append(("set", ("name", p_), jx(v_), c.lineno, rel))
-                            if isinstance(v_, nodes.Const):
-                                inner[_PARAMS][p_] = v_.value
-                                inner[p_] = v_.value
-                    out.extend(_items(tree, m.body, rel, inner, depth + 1))
+                            # a literal argument -- or the caller's own literal parameter handed on -- is known inside
+                            cv = v_.value if isinstance(v_, nodes.Const) else config.get(_PARAMS, {}).get(v_.name, _UNK) if isinstance(v_, nodes.Name) else _UNK
+                            if cv is not _UNK:
+                                inner[_PARAMS][p_] = cv
+                                inner[p_] = cv
+                    out.extend(_items(tree, m.body, mrel, inner, depth + 1))
+                    out.append(("other", f"macro-end:{mid}", c.lineno, rel))
                 else:
                     e = jx(c)
                     lp = _join_as_loop(e, c.lineno, rel)
@@ -676,6 +717,17 @@ def _items(tree, body, rel, config, depth) -> list:
                     out.append(("other", f"include-missing:{tgt[1]}", n.lineno, rel))
             else:
                 out.append(("other", "include-dynamic", n.lineno, rel))
+        elif t in (nodes.Import, nodes.FromImport) and isinstance(n.template, nodes.Const) and isinstance(n.template.value, str):
+            # `{% import "x.j2" as ns %}` / `{% from "x.j2" import helper [as h] %}`: remembered, so that calls of the imported macros
+            # are expanded like those of the template's own macros
+            imp = config.setdefault(_IMPORTS, {})
+            tgt = f"{TEMPLATE_ROOT}/{n.template.value}"
+            if t is nodes.Import:
+                imp[n.target] = (tgt, None)
+            else:
+                for nm in n.names:
+                    imp[nm[1] if isinstance(nm, tuple) else nm] = (tgt, nm[0] if isinstance(nm, tuple) else nm)
+            out.append(("other", t.__name__, n.lineno, rel))
         elif t is nodes.Extends:
             out.append(("other", "extends", n.lineno, rel))
         elif t is nodes.Block:
@@ -700,8 +752,18 @@ def _items(tree, body, rel, config, depth) -> list:
         elif t in (nodes.CallBlock, nodes.FilterBlock, nodes.With, nodes.Scope):
             out.append(("other", t.__name__, n.lineno, rel))
             body2 = getattr(n, "body", None)
+            inner = config
+            if t is nodes.With:
+                # `{% with a = X %} .. {% endwith %}` binds like `{% set a = X %}` for its body (scoping is not modelled beyond
+                # that: a read of the same name AFTER the block would see this binding too -- the rules resolve names backwards from
+                # a use, and a use after `endwith` of a name bound only by the block is an undefined variable in Jinja anyway)
+                inner = dict(config)
+                for tg_, v_ in zip(n.targets, n.values):
+                    out.append(("set", jx(tg_), jx(v_), n.lineno, rel))
+                    for x in ([tg_] if isinstance(tg_, nodes.Name) else tg_.find_all(nodes.Name)):
+                        inner.pop(x.name, None)
             if body2:
-                out.extend(_items(tree, body2, rel, config, depth))
+                out.extend(_items(tree, body2, rel, inner, depth))
         else:
             out.append(("other", t.__name__, getattr(n, "lineno", 0), rel))
     return out
@@ -882,7 +944,8 @@ def subst_names(e, env: dict):
         return e
     if len(e) == 2 and e[0] == "name" and isinstance(e[1], str):
         return env.get(e[1], e)
-    return tuple(subst_names(x, env) if isinstance(x, tuple) else x for x in e)
+    r = tuple(subst_names(x, env) if isinstance(x, tuple) else x for x in e)
+    return _dict_keys(r) if len(r) == 5 and r[0] == "filter" and isinstance(r[2], tuple) and r[2] else r
 
 
 def propagate_sets(items):
